@@ -34,6 +34,10 @@ N17 x.data.update({k: v, ...}) / x.data.update(k=v, ...) / x.data.update((k, v) 
 N19 v = []; for x in it: [if c:] v.append(e)   ->   v = [e for x in it if c]      (adjacent, x not used afterwards, v not read in the loop)
 N20 f'..{a}..{b:d}'  ->  '..%s..%d' % (a, b)      (plain replacement fields only)
 N21 while True: if c: break; body   ->   while not c: body          (the guard is the first statement, the loop has no else)
+N22 if True: A else: B -> A;  if False: A else: B -> B     (after N11: code under a module-level switch that is False is not there)
+N23 assert <expression without effects>  ->  nothing
+N24 opts = frozenset(kw) / set(kw) / tuple(kw) / list(kw) / kw.keys()  ...  k in opts   ->   k in kw      (kw the ** dictionary, never written)
+    kw = dict(kw)  ->  nothing      (the ** dictionary is the function's own already)
 N18 imports of package modules under another name (`from . import trees as T`, `import trees.trees as T`) and direct imports
     of their functions / constants (`from .trees import children`)  ->  `from . import trees` and `trees.children`  (scopes that
     bind the name themselves are left alone)
@@ -391,6 +395,54 @@ def _n4_unroll(st, func):
         for s in st.body:
             out.append(_Subst(mapping).visit(copy.deepcopy(s)))
     return out
+
+
+def _n24_kwsets(func):
+    """membership in a frozen copy of the keyword dictionary's keys is membership in the dictionary"""
+    kw = func.args.kwarg.arg if func.args.kwarg else None
+    if kw is None:
+        return False
+    changed = False
+    # kw = dict(kw): a copy of a dictionary nobody else holds
+    for lst in _stmt_lists(func):
+        for i, st in enumerate(lst):
+            if isinstance(st, ast.Assign) and len(st.targets) == 1 and isinstance(st.targets[0], ast.Name) and st.targets[0].id == kw \
+                    and isinstance(st.value, ast.Call) and isinstance(st.value.func, ast.Name) and st.value.func.id == 'dict' \
+                    and len(st.value.args) == 1 and not st.value.keywords and isinstance(st.value.args[0], ast.Name) \
+                    and st.value.args[0].id == kw and len(lst) > 1:
+                del lst[i]
+                return True
+    written = any(isinstance(x, (ast.Subscript,)) and isinstance(x.ctx, (ast.Store, ast.Del)) and isinstance(x.value, ast.Name)
+                  and x.value.id == kw for x in _own_walk(func)) or any(
+        isinstance(x, ast.Name) and x.id == kw and isinstance(x.ctx, (ast.Store, ast.Del)) for x in _own_walk(func)) or any(
+        isinstance(x, ast.Call) and isinstance(x.func, ast.Attribute) and isinstance(x.func.value, ast.Name) and x.func.value.id == kw
+        and x.func.attr in ('pop', 'update', 'setdefault', 'clear', 'popitem') for x in _own_walk(func))
+    if written:
+        return False
+    sets = {}
+    for x in _own_walk(func):
+        if isinstance(x, ast.Assign) and len(x.targets) == 1 and isinstance(x.targets[0], ast.Name):
+            v = x.value
+            inner = v
+            if isinstance(v, ast.Call) and isinstance(v.func, ast.Name) and v.func.id in ('frozenset', 'set', 'tuple', 'list', 'sorted') \
+                    and len(v.args) == 1 and not v.keywords:
+                inner = v.args[0]
+            if isinstance(inner, ast.Call) and isinstance(inner.func, ast.Attribute) and inner.func.attr == 'keys' and not inner.args:
+                inner = inner.func.value
+            if inner is not v and isinstance(inner, ast.Name) and inner.id == kw:
+                sets[x.targets[0].id] = sets.get(x.targets[0].id, 0) + 1
+    for nm in list(sets):
+        loads, stores = _count_names(func, nm)
+        if stores != 1:
+            del sets[nm]
+    if not sets:
+        return False
+    for x in _own_walk(func):
+        if isinstance(x, ast.Compare) and len(x.ops) == 1 and isinstance(x.ops[0], (ast.In, ast.NotIn)) \
+                and isinstance(x.comparators[0], ast.Name) and x.comparators[0].id in sets:
+            x.comparators[0] = ast.copy_location(ast.Name(id=kw, ctx=ast.Load()), x.comparators[0])
+            changed = True
+    return changed
 
 
 def _n21_whiletrue(st):
@@ -1215,6 +1267,28 @@ def normalise(tree, ctx=None, mname='', aliases=None, enabled=None):
             if isinstance(b_, list) and len(b_) > 1 and any(isinstance(x_, ast.Pass) for x_ in b_) and isinstance(b_[0], ast.stmt):
                 kept = [x_ for x_ in b_ if not isinstance(x_, ast.Pass)]
                 setattr(node_, fld, kept or [b_[0]])
+    # N23 assertions without effects say what holds anyway; N22 branches under a literal True / False are not branches
+    for node_ in ast.walk(tree):
+        for fld in BLOCK_FIELDS:
+            b_ = getattr(node_, fld, None)
+            if not (isinstance(b_, list) and b_ and isinstance(b_[0], ast.stmt)):
+                continue
+            out_ = []
+            ch_ = False
+            for x_ in b_:
+                if on('N23') and isinstance(x_, ast.Assert) and _pure_env(x_.test, (ctx, mname, aliases, set())) \
+                        and (x_.msg is None or _pure(x_.msg)):
+                    ch_ = True
+                    stats['N23'] = stats.get('N23', 0) + 1
+                    continue
+                if on('N22') and isinstance(x_, ast.If) and isinstance(x_.test, ast.Constant) and isinstance(x_.test.value, bool):
+                    out_.extend(x_.body if x_.test.value else x_.orelse)
+                    ch_ = True
+                    stats['N22'] = stats.get('N22', 0) + 1
+                    continue
+                out_.append(x_)
+            if ch_:
+                setattr(node_, fld, out_ or [ast.copy_location(ast.Pass(), b_[0])])
     helpers = _expr_helpers(tree, public_ok) if on('N5') else {}
     foreign = ctx.get('xhelpers', {}) if on('N5x') else {}
     sigs = ctx.get('sigs', {}) if on('N14') else {}
@@ -1257,6 +1331,9 @@ def normalise(tree, ctx=None, mname='', aliases=None, enabled=None):
                     bump('N16')
                     changed = True
                     k += 1
+            if on('N24') and _round < 3 and _n24_kwsets(func):
+                bump('N24')
+                changed = True
             if on('N21') and _block_rewrite(func, _n21_whiletrue):
                 bump('N21')
                 changed = True
@@ -1613,9 +1690,8 @@ def module_constants(tree):
         if isinstance(st, ast.Assign) and len(st.targets) == 1 and isinstance(st.targets[0], ast.Name):
             nm = st.targets[0].id
             counts[nm] = counts.get(nm, 0) + 1
-            if isinstance(st.value, ast.Constant) and isinstance(st.value.value, (int, str)) \
-                    and not isinstance(st.value.value, bool):
-                vals[nm] = st.value
+            if isinstance(st.value, ast.Constant) and isinstance(st.value.value, (int, str)):
+                vals[nm] = st.value          # (switches like _DEBUG = False included)
         elif isinstance(st, (ast.AugAssign, ast.AnnAssign)) and isinstance(st.target, ast.Name):
             counts[st.target.id] = counts.get(st.target.id, 0) + 2
     for n in ast.walk(tree):
